@@ -284,8 +284,9 @@ def sweep_cases(classes, long_keys=True):
                 cands = [{"i": str(b)} for b in INT_BOUNDS] + [_sv("12")]
             else:
                 cands = [_sv(s) for s in STR_BOUNDS] + [{"i": "7"}]
-                if long_keys and n == "key":
-                    cands += [_sv("k" * L) for L in (LONG_LENS if cname == "AllocateRequest" else LONG_LENS[:2])]
+                if n == "key":      # key lengths around the 2-byte boundary (one class with all of them, the others with one)
+                    lens = [4096] if not long_keys else (LONG_LENS if cname == "AllocateRequest" else [65536] if cname == "GetRequest" else [4096])
+                    cands += [_sv("k" * L) for L in lens]
             for c in cands:
                 out.append({"family": "shm", "cls": cname, "vals": base[:i] + [c] + base[i + 1:]})
     return out
@@ -318,7 +319,7 @@ def rand_str(rng):
         s = [rng.choice(_ALPHA) for _ in range(rng.randint(0, 6))]
         s.insert(rng.randint(0, len(s)), rng.choice(["\x80", "é", "ÿ", "€", "\U0001f600", "\ud800", "Ā"]))
         return "".join(s)
-    return rng.choice(_ALPHA) * rng.choice([255, 256, 1000, 4095, 4096, 65535, 65536])
+    return rng.choice(_ALPHA) * rng.choice([255, 256, 1000, 4095, 4096, 4097, 9000, rng.choice([255, 65535, 65536])])
 
 
 def rand_case(rng, classes):
@@ -380,7 +381,12 @@ def _load_corpus():
 
 def _run_shm(ctx, with_model, n_random, long_keys=True):
     from ekw.core import lean_drive
-    classes = shm_classes()
+    try:
+        classes = shm_classes()
+    except Exception as e:     # the module does not even import: nothing can be encoded
+        ctx.violation({"kind": "module-import-failed", "family": "shm"}, {"family": "import", "module": "cascade.shm.api"},
+                      f"import cascade.shm.api raised {type(e).__name__}: {e}")
+        return
     cases = [c for c in _load_corpus() if c.get("family") == "shm"]
     ncorpus = len(cases)
     sweep = sweep_cases(classes, long_keys)
@@ -430,7 +436,7 @@ def _run_shm(ctx, with_model, n_random, long_keys=True):
     if not with_model:
         return
     lines = [json.dumps({"op": "classes"})]
-    lines += [json.dumps({"op": "enc", "cls": c["cls"], "vals": c["vals"]}) for c in cases]
+    lines += [json.dumps({"op": "enc", "cls": c["cls"], "vals": [_wire(v) for v in c["vals"]]}) for c in cases]
     lines += [json.dumps({"op": "dec", "hex": h}) for h in dec_inputs]
     res = lean_drive("C17", lines)
     if len(res) != len(lines):
@@ -458,12 +464,25 @@ def _run_shm(ctx, with_model, n_random, long_keys=True):
             ctx.disagree("shm-encode", case if sum(len(v.get("s", [])) for v in case["vals"]) < 500 else {"case": _show(case, classes)},
                          _short(m), _short(r))
     for h, r in zip(dec_inputs, real_decs):
-        m = json.loads(res[k])
+        m = _unwire(json.loads(res[k]))
         k += 1
         ctx.traces += 1
         if m != r and ndis < 40:
             ndis += 1
             ctx.disagree("shm-decode", {"hex": h[:400], "len": len(h) // 2}, _short(m), _short(r))
+
+
+def _wire(v):
+    """compact form for the driver: printable ASCII strings travel as JSON strings"""
+    if "s" in v and v["s"] and all(32 <= c < 127 and c not in (34, 92) for c in v["s"]):
+        return {"a": "".join(chr(c) for c in v["s"])}
+    return v
+
+
+def _unwire(x):
+    if isinstance(x, dict) and "ok" in x and isinstance(x["ok"], dict):
+        x["ok"]["vals"] = [{"s": [ord(c) for c in v["a"]]} if "a" in v else v for v in x["ok"]["vals"]]
+    return x
 
 
 def _short(x):
@@ -473,6 +492,14 @@ def _short(x):
 
 def _run_sampled(ctx, n_per_family):
     from ekw import c17_sampled as S
+    try:
+        S.registry()
+        S.exec_message_classes()
+        S.gateway_pairs()
+    except Exception as e:
+        ctx.violation({"kind": "module-import-failed", "family": "sampled"}, {"family": "import", "module": "cascade.executor.msg / gateway.api / controller.report / low.core"},
+                      f"importing the message modules raised {type(e).__name__}: {e}")
+        return
     cases = [c for c in _load_corpus() if c.get("family") in S.FAMILIES]
     for fam in sorted(S.FAMILIES):
         for _ in range(n_per_family):
@@ -521,7 +548,10 @@ def oracle_only(ctx):
 
 def search(ctx, why):
     """(P) or (T) broken: look harder for a failing input on the real code (oracle only)."""
-    classes = shm_classes()
+    try:
+        classes = shm_classes()
+    except Exception:
+        return
     have = {json.dumps(v["signature"], sort_keys=True) for v in ctx.violations}
     n = ctx.budget(20000, 200000)
     for _ in range(n):
@@ -537,6 +567,16 @@ def search(ctx, why):
 
 def replay(payload):
     case = payload["case"]
+    if case.get("family") == "import":
+        import importlib
+        try:
+            for m in ("cascade.shm.api", "cascade.executor.msg", "cascade.gateway.api", "cascade.controller.report", "cascade.low.core"):
+                importlib.import_module(m)
+        except Exception as e:
+            print("import failed:", type(e).__name__, e)
+            return 1
+        print("imports fine")
+        return 0
     if case.get("family") == "shm":
         classes = shm_classes()
         print("message :", _show(case, classes))
